@@ -313,6 +313,12 @@ def _seq_source(rng, n, cyclic):
         # lagged references to anything (must not matter)
         for j in rng.choice(n, size=int(rng.integers(0, 3)), replace=True):
             terms.append(f"0.05*{names[int(j)]}[{-int(rng.integers(1, 4))}]")
+        # leads (also of variables that the same equation uses at zero shift: avg = (x + x[+1])/2 ); they must not matter either
+        for j in sorted(deps[i]):
+            if rng.random() < 0.35:
+                terms.append(f"0.05*{names[j]}[+{int(rng.integers(1, 3))}]")
+        if rng.random() < 0.25:
+            terms.append(f"0.05*{names[int(rng.integers(0, n))]}[+{int(rng.integers(1, 3))}]")
         if rng.random() < 0.3:
             terms.append("0.2*zz_exog")
         lhs = transforms[int(rng.integers(0, len(transforms)))].format(x=names[i])
